@@ -77,20 +77,22 @@ class FitFractions:
             mcdata = mcdata.eval()
         if weight is None:
             weight = mcdata.get("weight", 1.0)
-        int_mc, g_int_mc = eval_integral(
-            self.amp,
-            mcdata,
-            var=self.var,
-            weight=weight,
-            args=args,
-            kwargs=kwargs,
-        )
-        self.cached_int_total += int_mc
-        self.cached_grad_total += g_int_mc
         cahced_res = self.amp.used_res
         cached_chains = _used_chains(self.amp)
         amp_tmp = self.amp
         try:
+            # the total is the sum of the listed resonances, as in cal_fitfractions
+            amp_tmp.set_used_res(self.res)
+            int_mc, g_int_mc = eval_integral(
+                self.amp,
+                mcdata,
+                var=self.var,
+                weight=weight,
+                args=args,
+                kwargs=kwargs,
+            )
+            self.cached_int_total += int_mc
+            self.cached_grad_total += g_int_mc
             for i in range(len(self.res)):
                 for j in range(i, -1, -1):
                     if i == j:
